@@ -247,8 +247,10 @@ theorem c14_inner11_wf (a b : C14.A) (_ha : a.WF) (_hb : b.WF) {r : C14.A}
     (h : C14.inner11 a b = .ok r) : r.WF := by
   unfold C14.inner11 at h
   obtain ⟨_, _, h⟩ := bind_ok_inv h
-  cases h
-  simp [Arr.WF]
+  -- the C14 model refuses zero-length operands in this arm (an `if` in front of the literal result)
+  first
+    | (cases h; simp [Arr.WF])
+    | (split at h <;> (cases h <;> simp [Arr.WF]))
 
 theorem c14_innerNd_wf (a b : C14.A) (_ha : a.WF) (_hb : b.WF) {r : C14.A}
     (h : C14.innerNd a b = .ok r) : r.WF := by
